@@ -44,4 +44,9 @@ CHECKS = {
         technique="reference-model monitor: real Context.evaluate (no cache) vs an independent reference interpreter of the parsed query over the undecorated vocabulary functions; type-strict comparison of value, state variables, last command, file name, extension; call log recorded",
         text="Thousands of seeded grammar-directed queries (all parameter kinds and argument shapes, links to depth 3, namespaces, state variables, sub-evaluations, file names, injected input, extra parameters) each compared field by field. Exploration with a feature-coverage table; empty feature class => inconclusive.",
         note="Reference interpreter (~250 lines) is trusted; vocabulary follows the documented command conventions; queries implying >300 executions discarded."),
+    "C06": dict(
+        category=_EXPL, design_ref="DESIGN.md section 4, C06",
+        technique="call-log monitor (canary commands right of the injected failure must not run) + failure-report monitor + position oracle accepting every correct (query text, offset) naming of the failing action or link argument; failure location from the reference interpreter",
+        text="Thousands of seeded failing queries: 11 failure kinds x position 1-5 at top level and inside links to depth 3, followed by canaries (also inside later link arguments), with NoCache and MemoryCache cold/warm. Exploration.",
+        note="Failure location trusted from the reference interpreter; two position/naming mechanisms are listed known findings."),
 }
